@@ -12,8 +12,8 @@ import z3
 
 from . import sym, npmodel as npm, units
 from .sym import (Sc, Unsupported, to_z3, wrap, ite, band, bor, bnot, compare, arith, implies,
-                  fresh_int, fresh_real, fresh_bool, Forall, flatten)
-from .values import (ArrRef, ObjRef, ListRef, DictRef, PureArr, Masked, Quantity, Unit, Opaque,
+                  fresh_int, fresh_real, fresh_bool, fresh_name, Forall, flatten)
+from .values import (ArrRef, ObjRef, ListRef, DictRef, PureArr, Masked, Quantity, Unit, Opaque, Abstract,
                      ArrCell, ObjCell, ListCell, DictCell, is_array, uf_array)
 from .npmodel import Raised
 
@@ -282,11 +282,17 @@ class Interp(object):
             st.heap[obj.addr] = ListCell(items)
             return
         if isinstance(obj, (ArrRef, Quantity)):
+            if isinstance(val, Opaque) and val.tag == 'format' and all(isinstance(x, (Sc, int)) for x in val.info[1]):
+                from .extmodels import format_code
+                val = format_code(val.info[0], val.info[1])        # strings in arrays are abstract codes
             npm.setitem(st, obj, key, val)
             return
         if isinstance(obj, ObjRef) and st.heap[obj.addr].cls == '<table>':
             from .extmodels import table_setitem
             table_setitem(self, st, obj, key, val)
+            return
+        if isinstance(obj, Abstract) and obj.tag == 'attr':
+            st.events.append(('store', obj.key[0], obj.key[1], key, val))
             return
         if isinstance(obj, PureArr):
             raise Unsupported("store into an unnamed temporary array")
@@ -423,9 +429,28 @@ class Interp(object):
         return set()
 
     # --- loops ---------------------------------------------------------
+    def _loop_ordinal(self, fr, node):
+        """Loops are numbered 1, 2, ... in SOURCE order within their function (for/while statements, nested
+        ones included), so the number does not depend on the path taken to reach the loop."""
+        table = fr.__dict__.get('_loop_table')
+        if table is None:
+            found = self.repo.find_function(fr.qualname)
+            loops = []
+            if found is not None:
+                for n in ast.walk(found[2]):
+                    if isinstance(n, (ast.For, ast.While)):
+                        loops.append(n)
+            loops.sort(key=lambda n: (n.lineno, n.col_offset))
+            table = dict((id(n), i + 1) for i, n in enumerate(loops))
+            fr._loop_table = table
+            fr._loop_nodes = loops          # keep the nodes alive (ids)
+        if id(node) in table:
+            return table[id(node)]
+        fr.loop_ordinal += 1                # a loop outside the function's own text (should not happen)
+        return 1000 + fr.loop_ordinal
+
     def stmt_For(self, node, st, fr):
-        fr.loop_ordinal += 1
-        ordinal = fr.loop_ordinal
+        ordinal = self._loop_ordinal(fr, node)
         spec = self.loop_specs.get((fr.qualname, ordinal))
         it = self.eval(node.iter, st, fr)
         seq = self.concrete_iter(it, st)
@@ -461,8 +486,7 @@ class Interp(object):
         return IndependentIterations()
 
     def stmt_While(self, node, st, fr):
-        fr.loop_ordinal += 1
-        ordinal = fr.loop_ordinal
+        ordinal = self._loop_ordinal(fr, node)
         spec = self.loop_specs.get((fr.qualname, ordinal))
         if spec is None:
             raise Unsupported("while loop %d of %s needs an invariant" % (ordinal, fr.qualname))
@@ -575,6 +599,34 @@ class Interp(object):
 
     def expr_List(self, node, st, fr):
         return st.alloc_list([st.box(self.eval(e, st, fr)) for e in node.elts])
+
+    def expr_ListComp(self, node, st, fr):
+        if len(node.generators) != 1 or node.generators[0].ifs or node.generators[0].is_async:
+            raise Unsupported("list comprehension with several generators / conditions")
+        gen = node.generators[0]
+        it = self.eval(gen.iter, st, fr)
+        seq = self.concrete_iter(it, st)
+        saved = dict((n, st.env[n]) for n in _names_of_target(gen.target) if n in st.env)
+        try:
+            if seq is not None:
+                items = []
+                for x in seq:
+                    self.assign(gen.target, st.box(x), st, fr)
+                    items.append(st.box(self.eval(node.elt, st, fr)))
+                return st.alloc_list(items)
+            if isinstance(it, SymRange) and it.step == 1 and isinstance(it.start, int) and it.start == 0:
+                # a list of symbolic length: the elements are kept ABSTRACT (the element expression is not
+                # evaluated); everything later done to an element is recorded as an event
+                self._drop(fr, 'element expression of a list comprehension over a symbolic range (elements kept abstract)')
+                uid = fresh_name('list')
+                return SymSeq(it.stop, lambda k: Abstract('elem', (uid, k)), 'abstract')
+            raise Unsupported("list comprehension over %r" % (it,))
+        finally:
+            for n in _names_of_target(gen.target):
+                if n in saved:
+                    st.env[n] = saved[n]
+                else:
+                    st.env.pop(n, None)
 
     def expr_Dict(self, node, st, fr):
         items = {}
@@ -977,6 +1029,8 @@ class Interp(object):
                 if attr in c.class_attrs:
                     return self.eval(c.class_attrs[attr], st, Frame(c.module, c.qualname))
             raise Raised('AttributeError', attr)
+        if isinstance(obj, Abstract):
+            return Abstract('attr', (obj, attr))
         if is_array(obj) or isinstance(obj, Quantity):
             return self.array_attr(obj, attr, st)
         if isinstance(obj, Unit):
@@ -1093,6 +1147,9 @@ class Interp(object):
         return False
 
     def set_attribute(self, obj, attr, val, st, fr):
+        if isinstance(obj, Abstract):
+            st.events.append(('set', obj, attr, val))
+            return
         if not isinstance(obj, ObjRef):
             if isinstance(obj, Opaque):
                 return
@@ -1164,6 +1221,9 @@ class Interp(object):
             return self.construct(fn, args, kwargs, st, fr)
         if isinstance(fn, ExcClass):
             return Opaque('exception', fn.name)
+        if isinstance(fn, Abstract) and fn.tag == 'attr':
+            st.events.append(('mcall', fn.key[0], fn.key[1], list(args), dict(kwargs)))
+            return None
         if isinstance(fn, LambdaVal):
             return self.call_lambda(fn, args, st)
         from .extmodels import Interp1d, call_interp1d, SpecCallable
@@ -1309,6 +1369,17 @@ def band_val(st, a, b):
 # ---------------------------------------------------------------------------
 # symbolic iterables
 # ---------------------------------------------------------------------------
+
+def _names_of_target(t):
+    if isinstance(t, ast.Name):
+        return [t.id]
+    if isinstance(t, (ast.Tuple, ast.List)):
+        out = []
+        for e in t.elts:
+            out.extend(_names_of_target(e))
+        return out
+    return []
+
 
 class SymRange(object):
     def __init__(self, start, stop, step=1):
